@@ -82,6 +82,8 @@ Definition cc_table_respects_headers (tab : list ccentry) : bool :=
 (* operations as written in case files *)
 Inductive rop :=
 | RServe (u : string) (code : int) (json : bool) (v : int) (pk : int) (neg : bool) (n : int)
+| RServeAlt (u : string) (code : int) (json : bool) (v : int) (pk : int) (neg : bool) (n : int)
+            (target : string)      (* the same with `Link: <target>; rel="alternate"` and text/html *)
 | RDown (u : string)                 (* transport failure from now on *)
 | RLoad (u : string)
 | RTick (dt : int).
@@ -90,7 +92,12 @@ Definition op_of (r : rop) : option op :=
   match r with
   | RServe u code json v pk neg n =>
       match policy_of pk (zs neg n) with
-      | Some p => Some (Serve u (RResp (zi code) (if json then BJson (zi v) else BGarbage) p))
+      | Some p => Some (Serve u (RResp (zi code) (if json then BJson (zi v) else BGarbage) p None))
+      | None => None
+      end
+  | RServeAlt u code json v pk neg n target =>
+      match policy_of pk (zs neg n) with
+      | Some p => Some (Serve u (RResp (zi code) (if json then BJson (zi v) else BGarbage) p (Some target)))
       | None => None
       end
   | RDown u => Some (Serve u RTransport)
@@ -160,8 +167,15 @@ Definition table_complete (cctab : list ccentry) (r : rcfg) (ops : list op) : bo
                                     | Some k => match lookup_s k tab with Some _ => true | None => false end
                                     | None => true
                                     end
-                        | Serve _ (RResp _ _ p) =>
-                            match cc_of_table cctab p with Some _ => true | None => false end
+                        | Serve _ (RResp _ _ p alt) =>
+                            match cc_of_table cctab p with Some _ => true | None => false end &&
+                            match alt with
+                            | Some t => match http_key cli gw t with
+                                        | Some k => match lookup_s k tab with Some _ => true | None => false end
+                                        | None => true
+                                        end
+                            | None => true
+                            end
                         | _ => true
                         end) ops
   end.
@@ -170,6 +184,7 @@ Definition table_complete (cctab : list ccentry) (r : rcfg) (ops : list op) : bo
 Inductive robs :=
 | ObDoc (v : int) (reqs : list (bool * string))   (* document version; requests (true = IPFS node) *)
 | ObErr (reqs : list (bool * string))
+| ObExhausted (reqs : list (bool * string))   (* the origin refused after run_fuel+1 answered requests *)
 | ObPanic.
 
 Definition chan_eqb (c : channel) (node : bool) : bool :=
@@ -182,12 +197,18 @@ Fixpoint reqs_eqb (a : list (channel * url)) (b : list (bool * string)) : bool :
   | _, _ => false
   end.
 
-(* the model's log is newest first; a Load issues at most one request, and the
-   harness writes its delta in the same order *)
+(* fuel of the model in case files.  The scripted origin of the harness answers at most
+   run_fuel + 1 requests per load and refuses the next one, which is exactly where the model
+   runs out of fuel (every level of an unfinished chain of alternate links issues one request);
+   histories without alternate links never get there. *)
+Definition run_fuel : nat := 7.
+
+(* the model's log is newest first, and the harness writes its delta in the same order *)
 Definition obs_agree (m : outcome * list (channel * url)) (o : robs) : bool :=
   match m, o with
   | (ODoc d, rq), ObDoc v rq' => Z.eqb d (zi v) && reqs_eqb rq rq'
   | (OErr, rq), ObErr rq' => reqs_eqb rq rq'
+  | (ODiverge, rq), ObExhausted rq' => reqs_eqb rq rq'
   | _, _ => false
   end.
 
@@ -239,11 +260,11 @@ Definition case_agrees (cctab : list ccentry) (c : hcase) : bool :=
   match cfg_of cctab (h_cfg c), ops_of (h_ops c) with
   | Some cfg, Some ops =>
       table_complete cctab (h_cfg c) ops &&
-      all_agree obs_agree (observe cfg init ops) (h_obs c) &&
-      all_agree dump_agree (dump cfg (run cfg ops) (h_keys c)) (h_dump c) &&
+      all_agree obs_agree (observe run_fuel cfg init ops) (h_obs c) &&
+      all_agree dump_agree (dump cfg (run run_fuel cfg ops) (h_keys c)) (h_dump c) &&
       match h_raw c with
       | [] => true
-      | raw => all_agree raw_agree (rawdump (run cfg ops) (h_keys c)) raw
+      | raw => all_agree raw_agree (rawdump (run run_fuel cfg ops) (h_keys c)) raw
       end
   | _, _ => false
   end.
